@@ -16,6 +16,19 @@ _HIST_ASSUME = [
 ]
 
 PROPS = {
+    "C12": {
+        "level": "exploration",
+        "jobs": [
+            {"run": "^TestC12Inputs", "checks": {"quick": 4, "thorough": 120}, "shards": {"quick": 3, "thorough": 16}, "shrink_s": 45},
+            {"run": "^TestC12CatchUpTraffic", "checks": {"quick": 150, "thorough": 3000}, "shards": {"quick": 1, "thorough": 4}},
+            {"run": "^TestC12Shutdown", "checks": {"quick": 3, "thorough": 30}, "shards": {"quick": 2, "thorough": 8}, "shrink_s": 45},
+        ],
+        "assumptions": [
+            "handler panics are observed through a verif-tagged wrapper around the HTTP mux that records and re-raises them; goroutine panics through deferred witnesses at the goroutine entry points",
+            "shutdown bound: 2 x serverShutdownTime of this build (10 s)",
+            "a connection reset caused by unread extra request bytes is TCP behaviour, not judged",
+        ],
+    },
     "C08": {
         "level": "exploration",
         "jobs": [
@@ -186,6 +199,11 @@ PROPS = {
 
 # Texts for MANIFEST.json.
 META = {
+    "C12": {
+        "technique": "property-based fuzzing of all three network surfaces with structured generators (datagram, TCP, HTTP method x route x query x body), fault injection for peers and connections, liveness probes after every input",
+        "text": "Generated datagrams, sync requests and HTTP requests (incl. validly signed payloads at extreme field values) arrive at generated clock values from before the window to beyond two windows, with rotation steps in between, with authorized peers that are down; reports are also injected during the start-up catch-up loop through a verif point; shutdown is exercised with idle and half-sent connections and a stalled peer. No goroutine or handler may panic, every request must be answered, a probe must succeed and both mutexes must be free after every input, and Close() must return within the bound. Exploration only.",
+        "note": "Production-only outbound calls (WattTime, NASA) are stubbed by the test build or fail fast offline; nothing is claimed about them.",
+    },
     "C08": {
         "technique": "stateful property-based testing with generated fault sequences (per-datagram loss/duplication/reordering, per-attempt sync failures) between a real client and a real server",
         "text": "Generated histories of readings, ticks, relay decisions for every emitted datagram, failing and succeeding sync rounds, clock advances, a rotation and a server restart end with a fault-free round and delivery of everything held. The server must then hold the device's value for every slot still inside its window and acceptance range; all datagrams for a slot must be byte-identical; each delivery is additionally checked against the server model. Exploration only.",
